@@ -292,3 +292,7 @@ fn cleanup(state: &mut RuntimeState, ident: Option<&Ident>, data: Option<Value>)
         _ => {}
     }
 }
+
+#[cfg(kani)]
+#[path = "/verif/kani/closure.rs"]
+mod kani_verif;
